@@ -209,7 +209,9 @@ Section Prog.
   | Assign (o nm v : Z)
   | Read (k : nat)
   | Kill (o : Z)                (* dummy assignment (empties PROCESSING_SIGNALS), drop, gc.collect() *)
-  | WriteInside (acts : list act).  (* install a throw-away Computed whose function performs acts *)
+  | WriteInside (acts : list act)   (* install a throw-away Computed whose function performs acts *)
+  | WriteInsideKeep (acts : list act).  (* the same, and when the installation was rejected as a cycle the
+                                           Computed - which stays installed - is read once more *)
 
   (* the function of the throw-away Computed; false = rejected as a cycle *)
   Fixpoint run_acts (acts : list act) (st : state) : state * bool :=
@@ -227,6 +229,36 @@ Section Prog.
           end
         else run_acts t st
     end.
+
+  (* the same function, also returning what the throw-away Computed registered as its parents *)
+  Fixpoint run_acts_p (acts : list act) (st : state) (tp : pdict) : state * bool * pdict :=
+    match acts with
+    | [] => (st, true, tp)
+    | ARead o nm :: t =>
+        if alive st o then run_acts_p t (upd_ps st ((o, nm) :: ps st)) (padd tp o (SObs o nm) (store st o nm))
+        else run_acts_p t st tp
+    | AReadC k :: t =>
+        if (k <? ncomp)%nat && alive st (cowner k) then
+          let '(st1, v) := read_top st k in run_acts_p t st1 (padd tp (cowner k) (SComp k) v)
+        else run_acts_p t st tp
+    | AWrite o nm v :: t =>
+        if alive st o then
+          match set_obs true st o nm v with
+          | None => (st, false, tp)
+          | Some st1 => run_acts_p t st1 tp
+          end
+        else run_acts_p t st tp
+    end.
+
+  (* reading a Computed whose installing evaluation was rejected: Computable.__get__ -> __call__ finds it dirty
+     and not first, compares the parents registered before the ValueError; unchanged -> clean, returns the
+     cached _value, which is still None (code 2); changed -> the function runs again: rejected again (1) or
+     it completes and returns 0 (3) *)
+  Definition reread_rejected (acts : list act) (tp : pdict) (st : state) : state * Z :=
+    let '(st2, changed) := cmp_items (callf ncomp) (flat tp) st in
+    if changed then
+      let '(st3, ok2) := run_acts acts st2 in (st3, if ok2 then 3 else 1)
+    else (st2, 2).
 
   Variable nobs : list nat.       (* number of Observables of owner 0, 1, ... *)
 
@@ -260,6 +292,10 @@ Section Prog.
     | WriteInside acts =>
         let '(st1, ok) := run_acts acts st in
         (st1, 3 :: (if ok then 0 else 1) :: obs_state st1)
+    | WriteInsideKeep acts =>
+        let '(st1, ok, tp) := run_acts_p acts st [] in
+        if ok then (st1, 4 :: 0 :: 0 :: obs_state st1)
+        else let '(st2, r) := reread_rejected acts tp st1 in (st2, 4 :: 1 :: r :: obs_state st2)
     end.
 
   Fixpoint run_ops (st : state) (ops : list op) : list (list Z) :=
